@@ -256,7 +256,7 @@ impl Monitor for C06 {
         vec![("pairs", tier.pick(420_000, 8_400_000)), ("grid", tier.pick(70_000, 700_000))]
     }
     fn rule(&self) -> &'static str {
-        "pairs: case = (objective, family, length 1..8 or (every third block) from {9,15..17,31,33,63..65,127..129,255,257,1000,1023,1025,4097}, flat or 3-D factorisation); families for AE/MAE/MSE/RMSE: random (scales 1e-3..1e5), some-equal, ulp-differences, tiny-differences (1e-44..1e-10), large-magnitudes (1e8..1e15), boundary-grid; for CE/BCE/KL: random-interior, one-hot-target, boundary-grid {0,1,1e-6,1-1e-6,denormals,..}, equal-pairs, exact-zeros-and-ones, distributions. Every case: loss vs documented formula (running f32 error bound), loss finite, gradient vs documented formula (1e-5 + n eps relative), gradient shape == prediction shape, a clamp interval applied (symmetric, narrow, degenerate, half-line [0,MAX], random, one-sided with an infinite bound, (-inf,inf)): loss unchanged and gradient == unclamped gradient limited to the interval bit-for-bit; interior cases of AE/MSE/BCE/KL additionally: gradient == dual-number derivative of the documented loss and ~ central difference of the library's own loss(). grid: full product of boundary values for vectors of length <= 3. Distinct = distinct (objective, family, shape, data hash)."
+        "pairs: case = (objective, family, length 1..8 or (every third block) from {9,15..17,31,33,63..65,127..129,255,257,1000,1023,1025,4097}, flat or 3-D factorisation); families for AE/MAE/MSE/RMSE: random (scales 1e-3..1e5), some-equal, ulp-differences, tiny-differences (1e-44..1e-10), large-magnitudes (1e8..1e15), boundary-grid; for CE/BCE/KL: random-interior, one-hot-target, boundary-grid {0,1,1e-6,1-1e-6,denormals,..}, equal-pairs, exact-zeros-and-ones, distributions. Every case: loss vs documented formula (running f32 error bound), loss finite, gradient vs documented formula (1e-5 + n eps relative), gradient shape == prediction shape, a clamp interval applied (symmetric, narrow, degenerate, half-line [0,MAX], random, one-sided with an infinite bound, (-inf,inf)): loss unchanged and gradient == unclamped gradient limited to the interval bit-for-bit; interior cases of AE/MSE/BCE/KL additionally: gradient == dual-number derivative of the documented loss and ~ central difference of the library's own loss(). Every fourth case evaluates ONE objective value on three pairs of different sizes and layouts in a row (loss and gradient of each against the documented formulas). grid: full product of boundary values for vectors of length <= 3. Distinct = distinct (objective, family, shape, data hash)."
     }
     fn assumptions(&self) -> Vec<&'static str> {
         vec![
@@ -291,6 +291,47 @@ impl Monitor for C06 {
                         out.count("back_to_back_calls_in_two_layouts", 1);
                         if b.2 != sh_dims(other) || !b.3 || a.2 != sh_dims(sh) {
                             out.viol(&format!("obj:{}:grad:shape:after-other-layout", obj.name()), format!("{}: loss() on shape {:?} directly after the same numbers in shape {:?} returns a gradient of shape {:?}", obj.name(), sh_dims(other), sh_dims(sh), b.2), J::obj().set("prediction", J::f32s(&p)).set("target", J::f32s(&t)));
+                        }
+                    }
+                }
+                // ONE objective value used for several pairs of different sizes and layouts, as a
+                // caller evaluating different heads would: every answer is that of the current pair
+                if idx % 4 == 3 {
+                    let fobj = Function::create(lib_obj(obj), None);
+                    let mut sizes = vec![n];
+                    for _ in 0..2 {
+                        let mut m = rng.range(1, 9);
+                        if m == *sizes.last().unwrap() {
+                            m += 1;
+                        }
+                        sizes.push(m);
+                    }
+                    for (k, m) in sizes.iter().enumerate() {
+                        let (p2, t2, _, _) = if k == 0 { (p.clone(), t.clone(), name, interior) } else { make_pair(&mut rng, obj, fam, *m) };
+                        let sh2 = if rng.bool() { Sh::Flat(*m) } else { factor(&mut rng, *m) };
+                        let r = guard(|| {
+                            let (l, g) = fobj.loss(&tensor_of(sh2, &p2), &tensor_of(sh2, &t2));
+                            (l, flat(&g), shape_dims(&g.shape))
+                        });
+                        let pe: Vec<E> = p2.iter().map(|v| E::exact(*v as f64)).collect();
+                        let tf: Vec<f64> = t2.iter().map(|v| *v as f64).collect();
+                        let want = obj_loss(obj, &pe, &tf);
+                        let gwant = obj_grad(obj, &p2.iter().map(|v| *v as f64).collect::<Vec<f64>>(), &tf);
+                        match r {
+                            Err(m2) => out.viol(&format!("obj:{}:reused:panic", obj.name()), format!("{} loss() call #{} on one objective value panicked: {}", obj.name(), k + 1, short(&m2, 160)), J::Null),
+                            Ok((l, g, dims)) => {
+                                out.count("calls_on_a_reused_objective_value", 1);
+                                let bad_loss = l.is_finite() && want.v.is_finite() && (l as f64 - want.v).abs() > 8.0 * want.e + 1e-30;
+                                let bad_grad = g.len() != *m || dims != sh_dims(sh2) || (0..*m).any(|i| g[i].is_finite() && (g[i] as f64 - gwant[i]).abs() > (1e-5 + *m as f64 * 1.2e-7) * gwant[i].abs() + 1e-37);
+                                if bad_loss || bad_grad {
+                                    out.viol(
+                                        &format!("obj:{}:reused:{}", obj.name(), if bad_loss { "loss" } else { "gradient" }),
+                                        format!("{}: call #{} on the same objective value (sizes so far {:?}): loss {:e}, documented {:e}; gradient shape {:?}", obj.name(), k + 1, &sizes[..=k], l, want.v, dims),
+                                        J::obj().set("prediction", J::f32s(&p2)).set("target", J::f32s(&t2)).set("sizes", J::usizes(&sizes)),
+                                    );
+                                    break;
+                                }
+                            }
                         }
                     }
                 }
